@@ -697,7 +697,7 @@ def run_cache_half(rep, rng, cov, broken):
     # common.run_impl gives one harness process per 50 cases, and the Rust side (real BLS signatures,
     # dev profile) is the slow one; a few long scenarios would therefore run sequentially.  So the
     # scenarios are run as independent batches of c05.run_replica_cases, concurrently.
-    nbatch, per_batch = (8, 4) if tier == "quick" else (16, 8)
+    nbatch, per_batch = (12, 2) if tier == "quick" else (16, 8)
     rngs = [rng.fork() for _ in range(nbatch)]
 
     def new_stats():
